@@ -1,6 +1,7 @@
 From Coq Require Import ZArith String List Bool.
 From Grpchan Require Import lib.Cases lib.Hex.
 From Grpchan Require Export model.LateRead.
+From Grpchan Require model.LateWrite.
 Import ListNotations.
 Open Scope Z_scope.
 
@@ -18,7 +19,11 @@ Definition check_case (k : case) : bool :=
   match k with
   | Iso c _ dyn iso ow => (if dyn && negb (c =? 1) then true else iso) && ow
   | Late _ cancelled late => if cancelled then true else negb late
-  | LateWrite _ err written => err && negb written     (* the response is copied on the caller's goroutine only *)
+  | LateWrite _ err written =>
+      (* the observed event trace of the call must be one the LTS of model/LateWrite.v can produce *)
+      err && Grpchan.model.LateWrite.possible 8 Grpchan.model.LateWrite.init
+               (if written then [Grpchan.model.LateWrite.Ret; Grpchan.model.LateWrite.WriteResp]
+                else [Grpchan.model.LateWrite.Ret])
   end.
 
 Definition oracle_case (k : case) : bool :=
